@@ -47,6 +47,26 @@ FullYear(m, v) ==
                                       ELSE (IF yy >= 54 THEN 1900 + yy ELSE 2000 + yy)
        [] OTHER -> -1
 
+(* ---- formats whose date is not plain digits ---- *)
+(* Italian codice fiscale: yy at 7-8, month letter at 9, day (+40 for women) at 10-11; after a name collision digits may be *)
+(* replaced by the letters LMNPQRSTUV (omocodia)                                                                            *)
+OmoVal(c) == IF IsDigitCp(c) THEN c - 48
+             ELSE CASE c = 76 -> 0 [] c = 77 -> 1 [] c = 78 -> 2 [] c = 80 -> 3 [] c = 81 -> 4 [] c = 82 -> 5
+                    [] c = 83 -> 6 [] c = 84 -> 7 [] c = 85 -> 8 [] c = 86 -> 9 [] OTHER -> 99
+CfMonth(c) == CASE c = 65 -> 1 [] c = 66 -> 2 [] c = 67 -> 3 [] c = 68 -> 4 [] c = 69 -> 5 [] c = 72 -> 6 [] c = 76 -> 7
+                [] c = 77 -> 8 [] c = 80 -> 9 [] c = 82 -> 10 [] c = 83 -> 11 [] c = 84 -> 12 [] OTHER -> 0
+CfAgrees(v, date) == /\ Len(v) = 16
+                     /\ date[1] % 100 = OmoVal(v[7]) * 10 + OmoVal(v[8])
+                     /\ date[2] = CfMonth(v[9])
+                     /\ (OmoVal(v[10]) * 10 + OmoVal(v[11])) - date[3] \in {0, 40}
+(* Swedish personnummer: [yy]yymmdd, a separator, four digits; coordination numbers add 60 to the day *)
+OnlyDigits(v) == SelectSeq(v, IsDigitCp)
+SeAgrees(v, date) == LET d == OnlyDigits(v)  o == IF Len(d) = 12 THEN 2 ELSE 0
+                     IN /\ Len(d) \in {10, 12}
+                        /\ (IF Len(d) = 12 THEN date[1] = Num(d, 1, 4) ELSE date[1] % 100 = Num(d, 1, 2))
+                        /\ date[2] = Num(d, 3 + o, 2)
+                        /\ Num(d, 5 + o, 2) - date[3] \in {0, 60}
+
 (* real calendar dates (Gregorian) *)
 Leap(y) == (y % 4 = 0 /\ y % 100 # 0) \/ y % 400 = 0
 DaysIn(y, mth) == IF mth = 2 THEN (IF Leap(y) THEN 29 ELSE 28) ELSE IF mth \in {4, 6, 9, 11} THEN 30 ELSE 31
